@@ -13,15 +13,16 @@ CLAIMS = {
     'C20': dict(
         text=("Machine-checked theorems over a line-by-line Gallina model of SeenSet/IndexedCache, for ALL key lists, value "
               "alphabets and histories (induction over the operation list): C20_check (coverage answers exactly 'some inserted "
-              "binding is contained in the lookup'), C20_clear, C20_retrieve_sound (whatever retrieve returns is a stored, not overwritten entry compatible with the lookup: "
-              "retrieval never invents), C20_retrieve_complete_unmixed (on an index with no level holding both the wildcard and a concrete "
-              "key every compatible entry is returned); general COMPLETENESS is refuted in Coq by a witness (C20_retrieve_refuted) that "
-              "replays on the code = known finding C20-wildcard-preference: entries are lost, never invented, and only through a mixed level. The model is tied to "
-              "cache_data.py by comparing the result of every operation of generated histories (exact sequences) on every run; "
-              "the implementation is compared with the reference store as well, and a disagreement that is not exactly the "
-              "listed finding is a violation."),
-        design='7/C20', technique='Coq proof (induction over operation histories, SeenSet invariant) + model/implementation correspondence by vm_compute',
-        note=BASE_NOTE + " Retrieval: soundness proved, completeness refuted (known finding); the merged binding returned with an output is compared by the correspondence only."),
+              "binding is contained in the lookup'), C20_clear, and C20_retrieve - the property's retrieval statement IN FULL: after any "
+              "well-formed history, for every lookup (full, partial, empty) retrieval returns a PERMUTATION of the reference answer - every "
+              "stored, not overwritten entry whose binding agrees with the lookup on the keys they share, each once, paired with its binding "
+              "merged into the lookup, nothing else (C20_retrieve_sound / C20_retrieve_complete are its halves). At the pinned commit this "
+              "statement was refuted by a witness that replayed on the code (a level holding both the wildcard and a concrete key lost "
+              "entries: former known finding C20-wildcard-preference); the defect was repaired in /repo and the model follows the repaired "
+              "code. The model is tied to cache_data.py by comparing the result of every operation of generated histories (exact "
+              "sequences, merged bindings included) on every run; the implementation is compared with the reference store as well."),
+        design='7/C20', technique='Coq proof (induction over operation histories; SeenSet invariant; paths of the index = stored entries; retrieval follows exactly the compatible paths) + model/implementation correspondence by vm_compute',
+        note=BASE_NOTE + " Keys and values are nat ids in the model (HashedValue equality = equality of ids); dict order is modelled (insertion order)."),
 
     'C01': dict(
         text=("Machine-checked theorem C01_filter: for every heap, every domain and every condition writable over one variable (any "
@@ -34,7 +35,7 @@ CLAIMS = {
               "15 % of the cases are HISTORIES over a lazily consumed one-shot domain (C01_over_lazy_domain: the answer is the filter of the "
               "domain's content however much of it earlier, possibly abandoned, evaluations have read)."),
         design='7/C01', technique='Coq proof (structural induction over the expression tree; P-model) + translator-regenerated tables + model/implementation correspondence on result sequences',
-        note=BASE_NOTE + " The stateful layer (de-duplication sets, lazy domain, result caches) is not in the proved model: it is covered by the correspondence only; cache-path row loss is known finding C05-wildcard-retrieval."),
+        note=BASE_NOTE + " The stateful layer (de-duplication sets, lazy domain, result caches) is not in the proved model: it is covered by the correspondence only; the cache path is C05's."),
     'C02': dict(
         text=("Machine-checked theorems over the P-model for any number of variables: C02_partition (the true rows of every node partition "
               "the satisfying extensions of the incoming binding, the false rows the others), C02_all_selected (every satisfying assignment "
@@ -43,7 +44,7 @@ CLAIMS = {
               "(all variables selected) or row sets (projections) of generated cases against the model on every run; cached configuration "
               "and re-evaluation against the specification."),
         design='7/C02', technique='Coq proof (partition/cover invariant by structural induction, counting argument) + correspondence',
-        note=BASE_NOTE + " Projection de-duplication (the seen sets) is outside the proved model (set-level tie only); selected EXPRESSIONS other than variables are covered by C19_selected (one variable) and by correspondence; cache-path row loss is known finding C05-wildcard-retrieval."),
+        note=BASE_NOTE + " Projection de-duplication (the seen sets) is outside the proved model (set-level tie only); selected EXPRESSIONS other than variables are covered by C19_selected (one variable) and by correspondence; the cache path is C05's."),
     'C03': dict(
         text=("Machine-checked theorems over Generated.v (the inverse-operator table and the Not dispatch are extracted from symbolic.py by the "
               "fail-closed translator on every run): the table is total, every row is the TRUE inverse on all operand pairs and it is "
@@ -67,13 +68,14 @@ CLAIMS = {
               "returns; otherwise evaluate, yield, store every row) on top of the CONCRETE index (the line-by-line model of "
               "cache_data.IndexedCache / SeenSet, tied to the code by C20's operation-level correspondence) returns, over any history of "
               "lookups binding at least one key, exactly the uncached rows with their flags - for every operator whose rows bind every "
-              "cache key (no wildcard ever enters the index: C20_retrieve_sound + C20_retrieve_complete_unmixed + C20_check do the work). "
-              "NOT proved: rows that leave a cache key open (there retrieval completeness is refuted, C20), and that each call site of "
+              "cache key (no wildcard ever enters the index: C20_retrieve_sound + C20_retrieve_complete + C20_check do the work). "
+              "NOT proved: operators whose rows leave a cache key open (the index itself is exact there too - C20_retrieve, after the repair "
+              "of the former known findings - but the operator then keeps the most general of the retrieved rows), and that each call site of "
               "symbolic.py has the modelled shape / which yield_when_false a row was stored under - covered by the correspondence check: every "
               "generated query (all shapes) is run twice with caching disabled and twice enabled on fresh objects and the four row "
               "multisets are compared with each other and with the specification, with cache-hit counts in the evidence."),
         design='7/C05', technique='Coq proof for the abstract memo and for the concrete index under full-row operators (invariant over lookup histories; soundness / completeness / coverage theorems of the index model) + differential correspondence cache on/off',
-        note=BASE_NOTE + " The cached path of the implementation (in-place mutation and aliasing of binding dictionaries) is abstracted; known finding C05-wildcard-retrieval."),
+        note=BASE_NOTE + " The cached path of the implementation (in-place mutation and aliasing of binding dictionaries) is abstracted. The former known finding C05-wildcard-retrieval (rows lost through a mixed wildcard / concrete level of the index) was repaired in /repo: no finding is open for this property."),
     'C06': dict(
         text=("Machine-checked: C06_none / C06_value / C06_many decide the outcome of `the` by the number of satisfying assignments (0, 1, >= 2) "
               "for every description with all variables selected, any heap and duplicate-free domains, from C02's exactly-once theorem and the "
